@@ -85,6 +85,19 @@ class SB:
     def __invert__(self):
         return SB(z3.Not(self.z))
 
+    def __eq__(self, o):
+        if isinstance(o, SB):
+            return SB(self.z == o.z)
+        if isinstance(o, bool):
+            return SB(self.z if o else z3.Not(self.z))
+        return NotImplemented
+
+    def __ne__(self, o):
+        r = self.__eq__(o)
+        return r if r is NotImplemented else SB(z3.Not(r.z))
+
+    __hash__ = object.__hash__
+
     def all(self):
         return self
 
@@ -103,6 +116,53 @@ def _cmp(a, b, op):
     return SB(op(za, zb))
 
 
+def _sym_array_ufunc(self, ufunc, method, *inputs, out=None, **kwargs):
+    """numpy's protocol for arithmetic between arrays and symbolic scalars: the ufunc is applied elementwise
+    with the Python-level operators of the elements (what numpy itself does for object arrays), INCLUDING the
+    in-place forms (`arr /= s` writes into arr, as it does for real numbers)."""
+    import operator
+
+    import numpy as np
+
+    if method != "__call__" or kwargs.get("where", True) is not True:
+        raise Inconclusive(f"numpy {ufunc.__name__}.{method} on symbolic values")
+    table = {
+        np.add: operator.add, np.subtract: operator.sub, np.multiply: operator.mul, np.true_divide: operator.truediv,
+        np.floor_divide: operator.floordiv, np.remainder: operator.mod, np.power: operator.pow, np.negative: operator.neg,
+        np.positive: operator.pos, np.absolute: abs, np.square: lambda x: x * x,
+        np.conjugate: lambda x: x.conjugate() if hasattr(x, "conjugate") else x,
+        np.sqrt: lambda x: x.sqrt() if is_sym(x) else math.sqrt(x),
+        np.equal: operator.eq, np.not_equal: operator.ne, np.less: operator.lt, np.less_equal: operator.le,
+        np.greater: operator.gt, np.greater_equal: operator.ge,
+    }
+    f = table.get(ufunc)
+    if f is None:
+        raise Inconclusive(f"numpy ufunc {ufunc.__name__} on symbolic values")
+
+    def as_obj(x):
+        if isinstance(x, np.ndarray):
+            return x
+        a = np.empty((), dtype=object)
+        a[()] = x
+        return a
+
+    arrs = [as_obj(i) for i in inputs]
+    shape = np.broadcast(*arrs).shape
+    res = np.empty(shape, dtype=object)
+    views = [np.broadcast_to(a, shape) for a in arrs]
+    for idx in np.ndindex(shape):
+        vals = [v[idx] for v in views]
+        vals = [x.item() if isinstance(x, np.generic) else x for x in vals]
+        res[idx] = f(*vals)
+    if out is not None:
+        target = out[0]
+        if target.dtype != object:
+            raise Inconclusive("in-place numpy operation would store a symbolic value in a numeric array")
+        target[...] = res
+        return target
+    return res if shape != () else res[()]
+
+
 class SV(float):
     """Symbolic real (or int when is_int) scalar."""
 
@@ -114,7 +174,7 @@ class SV(float):
         o.sq = None
         return o
 
-    __array_ufunc__ = None  # numpy must not coerce this float subclass; arrays are mapped elementwise below
+    __array_ufunc__ = _sym_array_ufunc  # numpy must not coerce this float subclass: elementwise Python operators
 
     def __copy__(self):
         return self  # immutable
@@ -398,7 +458,7 @@ class CV(complex):
     def imag(self):
         return self.im
 
-    __array_ufunc__ = None
+    __array_ufunc__ = _sym_array_ufunc
 
     def __copy__(self):
         return self
@@ -868,6 +928,28 @@ class NpProxy:
 
     def zeros(self, shape, dtype=None, **kw):
         return self._np.zeros(shape, dtype=dtype, **kw)
+
+    @property
+    def linalg(self):
+        return _LinalgProxy(self)
+
+
+class _LinalgProxy:
+    def __init__(self, npx):
+        self._npx = npx
+
+    def __getattr__(self, name):
+        return getattr(self._npx._np.linalg, name)
+
+    def norm(self, x, *a, **kw):
+        if NpProxy._anysym(x) and not a and not kw:
+            self._npx.used.add("linalg.norm")
+            tot = 0
+            for e in self._npx._obj(x).flat:
+                c = CV.lift(e)
+                tot = _a(tot, c.abs2())
+            return SV(_EX.aux_sqrt(zr_real(tot)))
+        return self._npx._np.linalg.norm(x, *a, **kw)
 
 
 def isclose_sym(a, b, rtol, atol):
